@@ -131,6 +131,42 @@ func rebindRenamedAnchors(w *World) {
 		return float64(inter) / float64(len(set))
 	}
 	taken := map[*FuncInfo]bool{}
+	rebind := func(name string, best *FuncInfo) {
+		taken[best] = true
+		w.FuncBy[name] = best
+		bare := name[strings.LastIndex(name, ".")+1:]
+		renamedFuncs[best.Obj] = bare
+		full := best.Obj.FullName()
+		renamedFull[best.Obj] = full[:strings.LastIndex(full, ".")+1] + bare
+		if i := strings.Index(name, "("); i >= 0 { // keep the receiver spelling the rules know
+			if j := strings.Index(full, "("); j >= 0 {
+				nf := renamedFull[best.Obj]
+				renamedFull[best.Obj] = nf[:j] + normRecvOf(name[i:], nf[j:])
+			}
+		}
+		best.Name = name
+	}
+	// a method whose receiver went from value to pointer (or back) keeps its name: same package, same type, same
+	// method name
+	toggle := func(name string) string {
+		i := strings.Index(name, ".(")
+		if i < 0 {
+			return ""
+		}
+		if strings.HasPrefix(name[i+2:], "*") {
+			return name[:i+2] + name[i+3:]
+		}
+		return name[:i+2] + "*" + name[i+2:]
+	}
+	for _, name := range missing {
+		if alt := toggle(name); alt != "" {
+			if fi := w.FuncBy[alt]; fi != nil && !taken[fi] {
+				if _, known := snap[alt]; !known {
+					rebind(name, fi)
+				}
+			}
+		}
+	}
 	// two passes: same signature first; then, for anchors still missing, a changed signature is accepted when the
 	// body is clearly the same one (what it calls and the constants it mentions agree almost entirely, and there are
 	// enough of them for that to mean something)
@@ -147,6 +183,8 @@ func rebindRenamedAnchors(w *World) {
 					continue
 				}
 				fp := fingerprint(fi)
+				fp.Sig, fp.Callees = strings.ReplaceAll(fp.Sig, "(*", "("), stripStars(fp.Callees)
+				old.Sig, old.Callees = strings.ReplaceAll(old.Sig, "(*", "("), stripStars(old.Callees)
 				if pass == 0 && fp.Sig != old.Sig {
 					continue
 				}
@@ -173,4 +211,27 @@ func rebindRenamedAnchors(w *World) {
 			best.Name = name
 		}
 	}
+}
+
+// normRecvOf: the full name of a method (as go/types prints it from the "(" on) with the receiver spelled as in the
+// name the rules know (pointer or value).
+func normRecvOf(oldTail, fullTail string) string {
+	oldPtr := strings.HasPrefix(oldTail, "(*")
+	newPtr := strings.HasPrefix(fullTail, "(*")
+	switch {
+	case oldPtr == newPtr:
+		return fullTail
+	case oldPtr:
+		return "(*" + fullTail[1:]
+	default:
+		return "(" + fullTail[2:]
+	}
+}
+
+func stripStars(xs []string) []string {
+	out := make([]string, len(xs))
+	for i, x := range xs {
+		out[i] = strings.ReplaceAll(x, "(*", "(")
+	}
+	return out
 }
